@@ -172,6 +172,33 @@ func pickExec(c *Ctx, env *pickEnv, op string) string {
 	return res
 }
 
+// pickDirect runs PickReader on an address list and reports which warehouse (index) served, by content identity.
+func pickDirect(wid api.WareID, addrs []api.WarehouseLocation) (res string) {
+	defer func() {
+		if r := recover(); r != nil {
+			res = "panic"
+		}
+	}()
+	rd, err := util.PickReader(wid, addrs, false, rio.Monitor{})
+	if err != nil {
+		return "err " + catOf(err)
+	}
+	got, _ := io.ReadAll(rd)
+	rd.Close()
+	for i, a := range addrs {
+		rd2, err := util.PickReader(wid, []api.WarehouseLocation{a}, false, rio.Monitor{})
+		if err != nil {
+			continue
+		}
+		b, _ := io.ReadAll(rd2)
+		rd2.Close()
+		if string(b) == string(got) {
+			return fmt.Sprintf("opened %d", i)
+		}
+	}
+	return "opened ?"
+}
+
 func pickEngine(c *Ctx) {
 	env := newPickEnv(c)
 	defer env.srv.Close()
